@@ -2,9 +2,12 @@ package streams
 
 import (
 	"fmt"
+	"iter"
 	"math"
+	"os"
 	"reflect"
 	"strings"
+	"sync"
 	"unsafe"
 
 	"github.com/paulsonkoly/chess-3/board"
@@ -32,13 +35,30 @@ import (
 //	c19z    board-in -> [i_nohash i_nohash 1]; the model (Model/EvalR.v run_c19z) prints the wrapping
 //	        int16 model, the non-wrapping integer model and the no-wrap flag of the theorem's hypothesis.
 //	c19vec  [mode names.. ] -> see runC19Vec; model Model/Vector.v run_c19vec, judge judge_c19vec.
+//	c19fresh  see c19fresh.go: the FIRST use of package tuning in a fresh process, from many goroutines.
 func init() {
+	if os.Getenv("VERIF_C19_CHILD") == "1" {
+		// fresh-process case of stream c19fresh: nothing of package tuning may have run yet
+		c19Child()
+		os.Exit(0)
+	}
+	hx.Register(&hx.Stream{Name: "c19fresh", Gen: genC19Fresh, Run: runC19Fresh})
 	hx.Register(&hx.Stream{Name: "c19env", Gen: genC19Env, Run: runC19Env})
 	hx.Register(&hx.Stream{Name: "c19z", Gen: genC19Env, Run: runC19Z})
 	hx.Register(&hx.Stream{Name: "c19vec", Gen: genC19Vec, Run: runC19Vec})
 }
 
-var c19Coeffs = tuning.EngineCoeffs()
+// the converted shipped coefficients, obtained on first use (NOT at package initialisation: the child
+// process of stream c19fresh must be the first caller of tuning.EngineCoeffs in its process)
+var (
+	c19CoeffsOnce sync.Once
+	c19CoeffsVal  tuning.EngineRep
+)
+
+func c19Shipped() tuning.EngineRep {
+	c19CoeffsOnce.Do(func() { c19CoeffsVal = tuning.EngineCoeffs() })
+	return c19CoeffsVal
+}
 
 func noHash(b *board.Board) *board.Board {
 	s := b.VerifSnapshot()
@@ -61,7 +81,7 @@ func runC19Env(a hx.Args) string {
 	if !epdok {
 		be = *bn
 	}
-	er := c19Coeffs // a private copy per evaluation (EngineRep is a value type)
+	er := c19Shipped() // a private copy per evaluation (EngineRep is a value type)
 	out := &hx.Nums{}
 	out.Int(int(b.STM), int(b.FiftyCnt)).B(fenok && epdok)
 	out.Int(int(eval.Eval(b, &eval.Coefficients)), int(eval.Eval(bn, &eval.Coefficients)), int(eval.Eval(&bp, &eval.Coefficients)))
@@ -214,6 +234,21 @@ func f2i(x float64) int64 {
 //	mode 3: mode 0 with the comparisons done on the Go side:
 //	        -> [N readback_ok tunedparams_ok written_ok nr] ++ nr triples (first index, first memory position, length)
 //	           of the maximal runs of consecutive memory positions yielded by TunedParams
+//	mode 4: LIVE ITERATORS.  The target tokens hold two or three selections separated by 63.  Set j is a private
+//	        coefficient set whose cell at memory position p holds (j+1)*10^6 + p.  All iterators
+//	        it_j := e_j.TunedParams(sel_j) are obtained UP FRONT and then advanced according to k:
+//	          k=0 one after the other; k=1 in lockstep (iter.Pull2, one step each per round);
+//	          k=2 nested: three steps of it_0, and inside each step a NEW iterator of every other set is
+//	              requested and walked to the end; k=3 interleaved with strides 2,1,3 per round (iter.Pull2).
+//	        Every yielded pointer is located by its ADDRESS (which set, which memory position) and marked
+//	        (cell := cell + 0.5, idempotent).
+//	        -> [nrec] ++ nrec records (j, yielded index, set the pointer points into or -1, memory position,
+//	           1 if the value behind the pointer is entry <index> of e_j.ToVector(sel_j)) ++ for every set j:
+//	           [n_j] ++ the memory positions of the cells of set j that were written
+//	mode 5: [5 k nt t..]: k workers (goroutines), each with a private EngineCoeffs() copy, each running the
+//	        perturb/evaluate/restore loop of client.go over TunedParams(targets) three times, concurrently
+//	        -> per worker [1 if every yielded pointer lay inside its own set, 1 if its set is unchanged afterwards,
+//	           number of parameters seen per pass]
 //	mode 2: memory image of EngineCoeffs() (the float conversion of the shipped coefficients)
 func runC19Vec(a hx.Args) string {
 	out := &hx.Nums{}
@@ -338,6 +373,10 @@ func runC19Vec(a hx.Args) string {
 		}
 		out.Int(n).B(readOK).B(tpOK && cnt == n).B(nz == n).Int(len(runs) / 3)
 		out.I(runs...)
+	case 4:
+		c19Live(a, out)
+	case 5:
+		c19Workers(a, out)
 	}
 	return out.String()
 }
@@ -355,9 +394,16 @@ func genC19Vec(rng *hx.Rng, n int, tier string, emit func(hx.Input)) {
 		nums.Int(ts...)
 		var names []string
 		for _, t := range ts {
-			names = append(names, ns[t])
+			if t == c19Sep {
+				names = append(names, "|")
+			} else {
+				names = append(names, ns[t])
+			}
 		}
 		d := fmt.Sprintf("mode %d targets [%s]", mode, strings.Join(names, " "))
+		if mode == 4 || mode == 5 {
+			d += fmt.Sprintf(" k=%d", k)
+		}
 		if mode == 1 {
 			d += fmt.Sprintf(" perturb index %d", k)
 		}
@@ -390,6 +436,28 @@ func genC19Vec(rng *hx.Rng, n int, tier string, emit func(hx.Input)) {
 	}
 	put(3, 0, def, "default-targets")
 	put(3, 0, []int{0, 2, 3, nf - 1}, "compact")
+	// iterators alive at the same time: two or three private sets, equal or different selections
+	join := func(sels ...[]int) []int {
+		var ts []int
+		for i, s := range sels {
+			if i > 0 {
+				ts = append(ts, c19Sep)
+			}
+			ts = append(ts, s...)
+		}
+		return ts
+	}
+	kingSafety := []int{ix["KingAttackPieces"], ix["SafeChecks"], ix["KingShelter"]}
+	pawns := []int{ix["ProtectedPasser"], ix["PasserKingDist"], ix["PasserRank"], ix["DoubledPawns"], ix["IsolatedPawns"]}
+	mob := []int{ix["MobilityKnight"], ix["MobilityBishop"], ix["MobilityRook"]}
+	for pat := 0; pat < 4; pat++ {
+		put(4, pat, join(kingSafety, pawns), "live-iterators")
+		put(4, pat, join(pawns, pawns, mob), "live-iterators")
+	}
+	put(4, 1, join(def, def), "live-iterators")
+	put(4, 2, join(pawns, def, kingSafety), "live-iterators")
+	put(5, 8, def, "live-workers")
+	put(5, 4, kingSafety, "live-workers")
 	// the finite-difference indexing with the default targets: first, last, field boundaries, random
 	nd := size(def)
 	for _, k := range []int{0, 1, 63, 64, 767, 768, nd - 1, nd, nd + 5} {
@@ -431,6 +499,21 @@ func genC19Vec(rng *hx.Rng, n int, tier string, emit func(hx.Input)) {
 			ts = append(ts, nf)
 		}
 		kind := "random-subset"
+		if rng.Chance(0.15) {
+			// random live-iterator case: 2-3 random selections, random pattern
+			var sels [][]int
+			for k := 2 + rng.Intn(2); k > 0; k-- {
+				var sel []int
+				for i := 0; i < nf; i++ {
+					if rng.Chance(0.3) {
+						sel = append(sel, i)
+					}
+				}
+				sels = append(sels, sel)
+			}
+			put(4, rng.Intn(4), join(sels...), "live-iterators")
+			continue
+		}
 		if rng.Chance(0.4) {
 			put(0, 0, ts, kind)
 		} else if rng.Chance(0.3) {
@@ -446,5 +529,178 @@ func genC19Vec(rng *hx.Rng, n int, tier string, emit func(hx.Input)) {
 			}
 			put(1, k, ts, kind)
 		}
+	}
+}
+
+// ------------------------------------------------------------------------------------------------
+// c19vec modes 4 and 5: parameter iterations that are alive at the same time
+
+const c19Sep = 63
+
+func c19Selections(a hx.Args) [][]string {
+	ns := c19Names()
+	sels := [][]string{nil}
+	for i := 3; i < 3+a.Int(2) && i < a.Len(); i++ {
+		k := a.Int(i)
+		if k == c19Sep {
+			sels = append(sels, nil)
+		} else if k >= 0 && k < len(ns) {
+			sels[len(sels)-1] = append(sels[len(sels)-1], ns[k])
+		}
+	}
+	return sels
+}
+
+func c19Live(a hx.Args, out *hx.Nums) {
+	pattern := a.Int(1)
+	sels := c19Selections(a)
+	n := len(sels)
+	sets := make([]*tuning.EngineRep, n)
+	vecs := make([][]float64, n)
+	base := func(j, p int) float64 { return float64((j+1)*1000000 + p) }
+	for j := range sets {
+		sets[j] = &tuning.EngineRep{}
+		for p := range c19Mem(sets[j]) {
+			c19Mem(sets[j])[p] = base(j, p)
+		}
+		vecs[j] = append([]float64(nil), sets[j].ToVector(sels[j]).VectorToSlice()...)
+	}
+	locate := func(ptr *float64) (int, int) {
+		for k, e := range sets {
+			lo := uintptr(unsafe.Pointer(e))
+			x := uintptr(unsafe.Pointer(ptr))
+			if x >= lo && x < lo+uintptr(c19Floats)*8 {
+				return k, int((x - lo) / 8)
+			}
+		}
+		return -1, 0
+	}
+	var rec []int64
+	visit := func(j, i int, ptr *float64) {
+		k, p := locate(ptr)
+		ok := i >= 0 && i < len(vecs[j]) && math.Floor(*ptr) == vecs[j][i]
+		var okv int64
+		if ok {
+			okv = 1
+		}
+		rec = append(rec, int64(j), int64(i), int64(k), int64(p), okv)
+		if k >= 0 {
+			*ptr = base(k, p) + 0.5
+		}
+	}
+	// all iterators are requested before any of them is advanced
+	its := make([]iter.Seq2[int, *float64], n)
+	for j := range its {
+		its[j] = sets[j].TunedParams(sels[j])
+	}
+	switch pattern {
+	case 0:
+		for j := range its {
+			for i, ptr := range its[j] {
+				visit(j, i, ptr)
+			}
+		}
+	case 1, 3:
+		stride := make([]int, n)
+		for j := range stride {
+			stride[j] = 1
+			if pattern == 3 {
+				stride[j] = []int{2, 1, 3}[j%3]
+			}
+		}
+		next := make([]func() (int, *float64, bool), n)
+		for j := range its {
+			nx, stop := iter.Pull2(its[j])
+			defer stop()
+			next[j] = nx
+		}
+		for progressed := true; progressed; {
+			progressed = false
+			for j := range next {
+				for s := 0; s < stride[j]; s++ {
+					if i, ptr, ok := next[j](); ok {
+						visit(j, i, ptr)
+						progressed = true
+					}
+				}
+			}
+		}
+	case 2:
+		steps := 0
+		for i, ptr := range its[0] {
+			visit(0, i, ptr)
+			for j := 1; j < n; j++ {
+				for i2, p2 := range sets[j].TunedParams(sels[j]) {
+					visit(j, i2, p2)
+				}
+			}
+			steps++
+			if steps == 3 {
+				break
+			}
+		}
+	}
+	out.Int(len(rec) / 5)
+	out.I(rec...)
+	for j, e := range sets {
+		var ch []int64
+		for p, x := range c19Mem(e) {
+			if x != base(j, p) {
+				ch = append(ch, int64(p))
+			}
+		}
+		out.Int(len(ch))
+		out.I(ch...)
+	}
+}
+
+func c19Workers(a hx.Args, out *hx.Nums) {
+	k := a.Int(1)
+	ts := c19Targets(a)
+	type result struct {
+		inside, unchanged bool
+		seen              int
+	}
+	res := make([]result, k)
+	start := make(chan struct{})
+	var wg sync.WaitGroup
+	for w := 0; w < k; w++ {
+		wg.Add(1)
+		go func(w int) {
+			defer wg.Done()
+			e := tuning.EngineCoeffs()
+			for p := range c19Mem(&e) {
+				c19Mem(&e)[p] += float64(w)
+			}
+			before := append([]float64(nil), c19Mem(&e)...)
+			lo := uintptr(unsafe.Pointer(&e))
+			r := result{inside: true}
+			<-start
+			for pass := 0; pass < 3; pass++ {
+				r.seen = 0
+				for _, ptr := range e.TunedParams(ts) {
+					x := uintptr(unsafe.Pointer(ptr))
+					if x < lo || x >= lo+uintptr(c19Floats)*8 {
+						r.inside = false
+					}
+					old := *ptr
+					*ptr += tuning.Epsilon
+					*ptr = old
+					r.seen++
+				}
+			}
+			r.unchanged = true
+			for p, x := range c19Mem(&e) {
+				if x != before[p] {
+					r.unchanged = false
+				}
+			}
+			res[w] = r
+		}(w)
+	}
+	close(start)
+	wg.Wait()
+	for _, r := range res {
+		out.B(r.inside).B(r.unchanged).Int(r.seen)
 	}
 }
